@@ -14,7 +14,7 @@ Open Scope string_scope.
 Open Scope list_scope.
 Open Scope Z_scope.
 
-Inductive okind := KGet | KName | KUse | KOpt.
+Inductive okind := KGet | KName | KUse | KOpt | KRes.
 Inductive event :=
 | ECreate (inv res : Z) (ty content : Z) (h : option Z)
 | EUse (k : okind) (inv res : Z) (h : Z) (r : option Z)          (* Some x: ok with content / type / new handle *)
@@ -29,7 +29,7 @@ Definition dec_event (e : sexp) : option event :=
       | Some i', Some r', Some t, Some c', Some h' => Some (ECreate (2 * i') (2 * r') t c' (Some h')) | _, _, _, _, _ => None end
   | L [A k; _; i; r; h; res] =>
       let kind := if String.eqb k "g" then Some KGet else if String.eqb k "n" then Some KName else if String.eqb k "u" then Some KUse
-                  else if String.eqb k "o" then Some KOpt else None in
+                  else if String.eqb k "o" then Some KOpt else if String.eqb k "r" then Some KRes else None in
       match kind, dec_Z i, dec_Z r, dec_Z h, res with
       | Some kd, Some i', Some r', Some h', A "e" => Some (EUse kd (2 * i') (2 * r') h' None)
       | Some kd, Some i', Some r', Some h', L [A "ok"; x] => option_map (fun x' => EUse kd (2 * i') (2 * r') h' (Some x')) (dec_Z x)
@@ -73,6 +73,10 @@ Definition call_ok (ty content : Z) (c : Z) (r : option Z) (e : event) : bool :=
   | EUse KUse i res _ None => if ty =? 1 then before i || after res else true      (* a wrong-typed handle is an error at any time *)
   | EUse KOpt i res _ (Some _) => during i res && (ty =? 2)                        (* optional argument, supplied: a revocation state *)
   | EUse KOpt i res _ None => if ty =? 2 then before i || after res else true
+  (* first entry of a LIST of handles (status lists): the list is resolved entry by entry; result 0 = every entry
+     resolved to a status list; any other result (a panic inside the call, say) is never right *)
+  | EUse KRes i res _ (Some x) => during i res && (ty =? 1) && (x =? 0)
+  | EUse KRes i res _ None => if ty =? 1 then before i || after res else true
   | EUse _ i res _ None => before i || after res
   | EFree i res _ => true
   | ECreate _ _ _ _ _ => true
